@@ -137,6 +137,19 @@ def check(run):
         run.hit("e2e.cli")
     else:
         run.notes.append("end-to-end CLI run produced no report: %s" % im["stdout"][:200])
+    # directory run: hostile names of files and folders
+    tree = {"site/<img src=x onerror=alert(1)>.css": b".a { color: #777 }", "site/q\"uo'te&amp;/<b>x.css": b".b { color: #888; background-color: #fff }"}
+    im = cli_workers.run_cli((tree, "site", []))
+    rep = im["work"].get("cm_colors_report.html")
+    if rep:
+        t = tree_of(rep[1].decode("utf-8"))
+        tags = [x[1] for x in t.structure if x[0] == "<"]
+        run.count(("e2e", "cli-dir"))
+        if "img" in tags or "b" in tags:
+            run.violation("a hostile file or folder name adds elements to the CLI report", {"files": sorted(tree)}, details={"tags": sorted(set(tags))})
+        run.hit("e2e.cli_dir")
+    else:
+        run.notes.append("end-to-end directory run produced no report: %s %s" % (im["stdout"][:200], im["stderr"][-200:]))
     d = tempfile.mkdtemp(prefix="cmv_c19_")
     cwd = os.getcwd(); os.chdir(d)
     try:
